@@ -137,6 +137,12 @@ def gen_items(r, scratchdir, n):
           "- decl: int *makeInts(int n) +owner(caller)+dimension(n)\n- decl: const std::string * newStr() +owner(caller)\n")
     ob = ("library: ownb\ncxx_header: ownb.hpp\ndeclarations:\n- decl: double *makeReals(int n) +owner(caller)+dimension(n)\n"
           "- decl: std::vector<int> getVec()\n- decl: std::string getNameB()\n- decl: int *otherInts(int n) +owner(caller)+dimension(n)\n")
+    # a library that only declares classes: its library-level header has nothing to declare and is not written
+    ho = ("library: geom\ncxx_header: geom.hpp\ndeclarations:\n- decl: class Shape\n  declarations:\n  - decl: Shape()\n"
+          "  - decl: ~Shape()\n  - decl: double area(double scale)\n- decl: namespace detail\n  declarations:\n"
+          "  - decl: class Edge\n    declarations:\n    - decl: Edge()\n    - decl: int index()\n")
+    os.makedirs(os.path.join(scratchdir, "hollow"), exist_ok=True)
+    items.append({"yaml": shroudrun.write_yaml(os.path.join(scratchdir, "hollow"), "geom.yaml", ho), "label": "gen:hollow", "text": ho})
     for nm, t in (("ownA", oa), ("ownB", ob)):
         os.makedirs(os.path.join(scratchdir, nm), exist_ok=True)
         y = shroudrun.write_yaml(os.path.join(scratchdir, nm), nm.lower() + ".yaml", t)
@@ -345,7 +351,8 @@ def run(ctx):
                 common.rmtree(d)
         # populated output directory, second form: the directory already holds files with the generated NAMES whose
         # contents are related to what will be written (an older, shorter version; a longer one; empty; identical; junk)
-        for b_it in (items[:2] + own[:1] if not thorough else items[:6] + own):
+        hollow = [g for g in gen if g["label"] == "gen:hollow"]
+        for b_it in (items[:2] + own[:1] + hollow if not thorough else items[:6] + own + hollow):
             ref_exc, ref = alone[label(b_it)]
             if ref_exc is not None or not ref:
                 continue
@@ -370,6 +377,16 @@ def run(ctx):
                         new = b"unrelated contents\n" * 3
                     open(os.path.join(d, fn), "wb").write(new.replace(b"<OUTDIR>", d.encode()))
                     planted[fn] = how
+                # files this run does NOT write but whose names look generated (left by an earlier version of the library):
+                # the sibling of every written file under the other usual extensions
+                stale = []
+                for fn in sorted(ref):
+                    stem, ext = os.path.splitext(fn)
+                    for e2 in (".h", ".hpp", ".cpp", ".c", ".f"):
+                        sib = stem + e2
+                        if e2 != ext and sib not in ref and not os.path.exists(os.path.join(d, sib)) and stem.startswith(("wrap", "types", "util", "py", "lua")):
+                            open(os.path.join(d, sib), "w").write("/* left over from an earlier version */\nint stale_%d;\n" % len(stale))
+                            stale.append(sib)
                 e2 = subprocess.run([sys.executable, "-m", "tools.seqrun", json.dumps([dict(strip(b_it), outdir=d)])],
                                     stdout=subprocess.PIPE, stderr=subprocess.PIPE, text=True, env=_env(), cwd=common.VERIF)
                 after = shroudrun.read_tree(d)
@@ -380,7 +397,8 @@ def run(ctx):
                     ctx.fail("populated-related:%s:%s" % (label(b_it), planted.get(bad[0])),
                              "%s written into a directory that already held a file of that name (%s version) differs from a clean run: %s" % (
                                  bad[0], planted.get(bad[0]), bad[:4]),
-                             {"library": strip(b_it), "yaml_text": b_it.get("text"), "planted": {f: planted[f] for f in bad[:10]}, "files": bad[:10]})
+                             {"library": strip(b_it), "yaml_text": b_it.get("text"), "planted": {f: planted[f] for f in bad[:10]}, "files": bad[:10],
+                              "stale_siblings_planted": stale[:20]})
             finally:
                 common.rmtree(d)
     finally:
